@@ -152,3 +152,11 @@ package zcnsc
 //@   at-call UpdateConfig assert[owner-only] gn.OwnerId == t.ClientID
 //@   at-call InsertTrieNode assert[validated-when-saved] obj($arg2) == obj(gn) && $cfgValid[obj(gn)]
 //@   ensures[rejected-change-saves-nothing] result1 != nil ==> $nsaved == old($nsaved)
+
+// ---------------------------------------------------------------- staking on authorizers (C11)
+// A lock is validated against the stake bounds and delegate limit configured in the global node, for the
+// sender's own transaction.
+//@ func (*ZCNSmartContract).AddToDelegatePool
+//@   prop C11
+//@   requires t != nil && balances != nil
+//@   at-call StakePoolLock assert[configured-bounds] $arg0 == t && $arg3.MinStake == gn.MinStakeAmount && $arg3.MaxStake == gn.MaxStakeAmount && $arg3.MaxNumDelegates == gn.MaxDelegates
